@@ -196,6 +196,11 @@ def main(argv=None):
     with ctx.Pool(min(NPROC, max(1, len(jobs))), maxtasksperchild=1) as pool:
         for r in pool.imap_unordered(_job, jobs, chunksize=1):
             results.append(r)
+            if os.environ.get('VERIF_STOP_AT_FIRST') and r.get('violation') \
+                    and not r.get('twin'):
+                # seed runs: one replayed counterexample is enough
+                pool.terminate()
+                break
             if os.environ.get('VERIF_VERBOSE'):
                 print('  sub %-40s paths=%s ign=%s exh=%s viol=%s known=%s '
                       'err=%s %.1fs' % (
